@@ -184,7 +184,8 @@ func (p *parser) parseBool(n *yaml.Node) *Bool {
 	}
 
 	return &Bool{
-		Value: n.Value == "true",
+		// "True" and "TRUE" are also boolean values in YAML
+		Value: n.Value == "true" || n.Value == "True" || n.Value == "TRUE",
 		Pos:   posAt(n),
 	}
 }
